@@ -34,7 +34,7 @@ func malEligible(x *TD) bool {
 
 // twin-safe mutation operators: they touch only the selected node (never an earlier sibling) and do not
 // depend on the total length of the encoding.
-var afterOps = []int{mRetag, mLenDelta, mLenNonMinimal, mLenIndefinite, mDup, mDelete, mContent, mIntNonMinimal, mEmpty, mLatin, mBadBool, mBitPad, mOddTime, mFlip, mInsert, mHighTag, mArc80, mAppendByte}
+var afterOps = []int{mRetag, mLenDelta, mLenNonMinimal, mLenIndefinite, mDup, mDelete, mContent, mIntNonMinimal, mEmpty, mLatin, mBadBool, mBitPad, mOddTime, mFlip, mInsert, mHighTag, mArc80, mAppendByte, mTimeChar}
 
 func genLax(t *rapid.T) LaxCase {
 	var c LaxCase
